@@ -97,12 +97,35 @@ def random_history(rng, k):
         d_defs.append(dict(id=sid, name='NEW SEQUENCE %d' % sid, members=members))
     by_id = {e['id']: e for e in b_defs}
     seqs = {s['id']: s for s in d_defs}
+    # NCEP-style replication-only sequences (e.g. DRP8BIT 360002 = 101000 031001): the descriptor to replicate
+    # is the one that FOLLOWS the sequence in the template (tables._fix_ncep_descriptors)
+    reponly = {}
+    if rng.random() < 0.45:
+        for _ in range(rng.randint(1, 2)):
+            rid = 360000 + rng.randrange(1, 256)
+            if rid in seqs or rid in reponly:
+                continue
+            if rng.random() < 0.6:
+                reponly[rid] = ('d', [101000, 31001])
+            else:
+                c = rng.choice([2, 3])
+                reponly[rid] = ('f', [101000 + c])
+            d_defs.append(dict(id=rid, name='REPLICATION ONLY %d' % rid, members=reponly[rid][1]))
     # the data template: new elements, new sequences, a standard element that is NOT redefined
-    ids = []
+    units = []
     for _ in range(rng.randint(1, 4)):
-        ids.append(rng.choice(list(by_id) + list(seqs)) if seqs else rng.choice(list(by_id)))
+        units.append([rng.choice(list(by_id) + list(seqs)) if seqs else rng.choice(list(by_id))])
+    if reponly:
+        # every replication-only sequence is used, one of them (at least) twice, with differing targets when possible
+        uses = list(reponly) + [rng.choice(list(reponly))] + ([rng.choice(list(reponly))] if rng.random() < 0.3 else [])
+        rng.shuffle(uses)
+        targets = list(by_id) + list(seqs)
+        for rid in uses:
+            units.insert(rng.randint(0, len(units)), [rid, rng.choice(targets)])
+    ids = [i for u in units for i in u]
     ids.append(7001)            # height of station: keeps its standard meaning (15 bits, ref -400, scale 0)
-    std = {7001: dict(id=7001, unit='m', scale=0, ref=-400, nbits=15, kind='num')}
+    std = {7001: dict(id=7001, unit='m', scale=0, ref=-400, nbits=15, kind='num'),
+           31001: dict(id=31001, unit='Numeric', scale=0, ref=0, nbits=8, kind='num')}
 
     bits, expect, labels, toks = '', [], [], []
 
@@ -164,10 +187,32 @@ def random_history(rng, k):
         else:
             elem(by_id.get(i) or std[i])
 
-    for i in ids:
-        draw(i)
-    toks = '( ' + ' '.join(tokens_of(i) for i in ids) + ' )'
-    return dict(k=k, b_defs=b_defs, d_defs=d_defs, ids=ids, bits=bits, expect=expect, labels=labels, toks=toks)
+    top_toks = []
+    j = 0
+    while j < len(ids):
+        i = ids[j]
+        if i in reponly:
+            kind, mem = reponly[i]
+            target = ids[j + 1]
+            if kind == 'f':
+                for _ in range(mem[0] % 1000):
+                    draw(target)
+                top_toks.append('f %d ( %s )' % (mem[0], tokens_of(target)))
+            else:
+                cnt = rng.choice([0, 1, 2, 3])
+                labels.append('031001')
+                bits += bits_of(cnt, 8)
+                expect.append(('i', cnt))
+                for _ in range(cnt):
+                    draw(target)
+                top_toks.append('d 101000 %s ( %s )' % (tok_elem(std[31001]), tokens_of(target)))
+            j += 2
+        else:
+            draw(i)
+            top_toks.append(tokens_of(i))
+            j += 1
+    toks = '( ' + ' '.join(top_toks) + ' )'
+    return dict(reponly=sorted(reponly), k=k, b_defs=b_defs, d_defs=d_defs, ids=ids, bits=bits, expect=expect, labels=labels, toks=toks)
 
 
 CHILD = r'''
@@ -252,6 +297,8 @@ def run(ctx):
         ctx.count(('history', h['k'], len(h['bits'])), True)
         ctx.dist['elements-%d' % len(h['b_defs'])] += 1
         ctx.dist['sequences-%d' % len(h['d_defs'])] += 1
+        if h['reponly']:
+            ctx.dist['replication-only-sequences (NCEP)'] += 1
         if 'err' in res or len(res['ok']) != 2:
             ctx.violation({'kind': 'C20-stream-failed', 'case': case, 'result': str(res)[:400]},
                           'definition + data stream did not decode: %s' % str(res.get('err'))[:200])
@@ -293,7 +340,8 @@ def run(ctx):
             ctx.violation({'kind': 'C20-prepbufr', 'result': str(res)[:300]}, 'prepbufr.bufr does not decode')
         else:
             ctx.dist['prepbufr-messages'] += len(res['ok'])
-    ctx.partial = ['_fix_ncep_descriptors (replication-only sequences adopting the following descriptor) is exercised through prepbufr.bufr only, not modelled',
+    ctx.partial = ['_fix_ncep_descriptors (replication-only sequences adopting the following descriptor): the adoption is done by the '
+                   'harness oracle when it builds the model template (used twice with different targets per history), not by the Coq model',
                    'definition_then_data at model level relies on C13\'s tg_get_pure_guarded (invalidate then add_extra)']
     ctx.assumptions = ['each history runs in a fresh interpreter; the definition message itself is built with the implementation\'s encoder']
 
